@@ -1515,6 +1515,7 @@ class Irc(IrcCommandDispatcher, log.Firewalled):
         self.authenticate_decoder = None
         self.sasl_next_mechanisms = []
         self.sasl_current_mechanism = None
+        self.sasl_response_sent = False
 
         for mechanism in network_config.sasl.mechanisms():
             if mechanism == 'ecdsa-nist256p-challenge' and \
@@ -1649,6 +1650,7 @@ class Irc(IrcCommandDispatcher, log.Firewalled):
         for chunk in ircutils.authenticate_generator(string):
             self.sendMsg(ircmsgs.IrcMsg(command='AUTHENTICATE',
                 args=(chunk,)))
+        self.sasl_response_sent = True
 
     def tryNextSaslMechanism(self, msg):
         self.state.fsm.expect_state([
@@ -1657,6 +1659,7 @@ class Irc(IrcCommandDispatcher, log.Firewalled):
         ])
         if self.sasl_next_mechanisms:
             self.sasl_current_mechanism = self.sasl_next_mechanisms.pop(0)
+            self.sasl_response_sent = False
             self.sendMsg(ircmsgs.IrcMsg(command='AUTHENTICATE',
                 args=(self.sasl_current_mechanism.upper(),)))
         elif conf.supybot.networks.get(self.network).sasl.required():
@@ -1794,6 +1797,13 @@ class Irc(IrcCommandDispatcher, log.Firewalled):
             IrcStateFsm.States.INIT_SASL,
             IrcStateFsm.States.CONNECTED_SASL,
         ])
+        if not self.sasl_response_sent:
+            # We only asked for a mechanism so far: nothing of ours can have
+            # been accepted yet.
+            log.warning('%s: Ignoring 903 (SASL success) received before any '
+                        'response was sent for mechanism %s.',
+                        self.network, self.sasl_current_mechanism)
+            return
         log.info('%s: SASL authentication successful', self.network)
         self.sasl_authenticated = True
         self.state.fsm.on_sasl_auth_finished(self, msg)
